@@ -2,6 +2,9 @@ import ComposeVerif.Ops.Common
 import ComposeVerif.Model.Dotenv
 import ComposeVerif.Spec.Dotenv
 import ComposeVerif.Model.DotenvTrace
+import ComposeVerif.Spec.DotenvPrint
+import ComposeVerif.Model.DotenvGlue
+import ComposeVerif.Model.DotenvLine
 /-! line-protocol ops for C18: `dotenv` (model of `dotenv.UnmarshalWithLookup`) -/
 open Lean
 namespace CV.Ops.C18
@@ -130,5 +133,32 @@ def dotenvT : Handler := fun args =>
 /-- the names of the branch bits, so that the harness never has its own copy of the list -/
 def dotenvTags : Handler := fun _ => Json.arr (CV.Dotenv.tagNames.map Json.str).toArray
 
-def handlers : List (String × Handler) := handlers1 ++ [("dotenvSpec", dotenvSpec), ("dotenvT", dotenvT), ("dotenvTags", dotenvTags)]
+/-- round 6: the canonical printer (`Spec/DotenvPrint.lean`): the text of an ordered list of definitions, whether the
+    list is `Printable` (valid distinct names), and what the model parses the text to under the given lookup -/
+def dotenvCanon : Handler := fun args =>
+  let ks := (getStrList args "keys").map String.toList
+  let vs := (getStrList args "vals").map String.toList
+  let m : Map := ks.zip vs
+  let lookup := envOfList (getStrMap args "lookup")
+  let printable := m.all (fun kv => validKey kv.1) && decide ((m.map Prod.fst).Nodup)
+  let t := printCanon m
+  Json.mkObj [("text", str t), ("printable", Json.bool printable), ("parse", outJson (CV.Dotenv.parse t lookup))]
+
+/-- round 6: `ParseWithLookup` / `ReadFile` / `ParseWithFormat` with the dotenv parser registered: one BOM stripped -/
+def dotenvPWL : Handler := fun args =>
+  let src := (getStr args "src").toList
+  let lookup := envOfList (getStrMap args "lookup")
+  match parseWithFormat (registerFormat [] "c18dotenv" parseWithLookup) "c18dotenv" src lookup with
+  | some o => outJson o
+  | none => Json.mkObj [("unsupported", Json.bool true)]
+
+/-- round 6: the model with the line counter: outcome + the number the error message carries (-1 = none) -/
+def dotenvL : Handler := fun args =>
+  let src := (getStr args "src").toList
+  let lookup := envOfList (getStrMap args "lookup")
+  let r := CV.Dotenv.parseL src lookup
+  Json.mkObj [("out", outJson r.1), ("line", match errorLine r with | some n => Json.num (JsonNumber.fromNat n) | none => Json.num (JsonNumber.fromInt (-1)))]
+
+def handlers : List (String × Handler) := handlers1 ++ [("dotenvSpec", dotenvSpec), ("dotenvT", dotenvT), ("dotenvTags", dotenvTags),
+  ("dotenvCanon", dotenvCanon), ("dotenvPWL", dotenvPWL), ("dotenvL", dotenvL)]
 end CV.Ops.C18
